@@ -140,7 +140,7 @@ class CNFizer(DagWalker):
         k = self._key_var(formula)
         _cnf = [frozenset([self.mgr.Not(k)] + [a for a,_ in args])]
         for a,c in args:
-            _cnf.append(frozenset([k, self.mgr.Not(a)]))
+            _cnf.append(frozenset([k, self._neg(a)]))
             for clause in c:
                 _cnf.append(clause)
         return k, frozenset(_cnf)
